@@ -19,8 +19,20 @@ import (
 )
 
 func (o obj) ObjectID() string                { return o.ID }
-func (o obj) MarshalBinary() ([]byte, error)  { return json.Marshal(o) }
-func (o *obj) UnmarshalBinary(b []byte) error { return json.Unmarshal(b, o) }
+// The objects are encoded the way every production DAO encodes its objects (task_store, alert,
+// config, replay ...): storage.VersionJSONEncode / VersionJSONDecode. The bytes MarshalBinary returns
+// are handed to the store as they are (bolt keeps the value slice of a Put until the commit).
+type objV1 obj
+
+func (o obj) MarshalBinary() ([]byte, error) { return storage.VersionJSONEncode(1, objV1(o)) }
+func (o *obj) UnmarshalBinary(b []byte) error {
+	return storage.VersionJSONDecode(b, func(version int, dec *json.Decoder) error {
+		if version != 1 {
+			return fmt.Errorf("unexpected version %d", version)
+		}
+		return dec.Decode((*objV1)(o))
+	})
+}
 
 func asObj(o storage.BinaryObject) (*obj, error) {
 	p, ok := o.(*obj)
